@@ -772,22 +772,36 @@ pub fn gen_model(g: &mut Gen, cfg: &GenCfg) -> ModelSpec {
                     source = "random".into();
                     let mut mr = json!({"m": g.range(1.0, 5.0), "sigma": g.range(2.8, 4.8), "epsilon_k": g.range(100.0, 450.0),
                         "lr": g.range(8.0, 30.0), "la": 6.0});
-                    if g.bool(0.3) {
+                    if g.bool(0.5) {
                         mr["rc_ab"] = json!(g.range(0.3, 0.45));
                         mr["epsilon_k_ab"] = json!(g.range(1500.0, 3000.0));
-                        mr["na"] = json!(1.0);
-                        mr["nb"] = json!(1.0);
+                        // site schemes incl. donor/acceptor-asymmetric ones (2B, 3B, 4C, ...)
+                        let (na, nb) = [(1.0, 1.0), (1.0, 2.0), (2.0, 1.0), (2.0, 2.0), (1.0, 3.0)][g.index(5)];
+                        mr["na"] = json!(na);
+                        mr["nb"] = json!(nb);
                     }
                     pure.push(json!({"identifier": rnd_ident(g, k), "molarweight": g.range(16.0, 200.0), "model_record": mr}));
                 }
             }
             for i in 0..n {
                 for j in i + 1..n {
+                    let mut b = json!({});
+                    let mut any = false;
                     if g.bool(0.6) {
-                        let mut b = json!({"k_ij": g.range(-0.1, 0.1)});
+                        b["k_ij"] = json!(g.range(-0.1, 0.1));
                         if g.bool(0.3) {
                             b["gamma_ij"] = json!(g.range(-0.1, 0.1));
                         }
+                        any = true;
+                    }
+                    // binary association override for a pair of associating components
+                    let both_assoc = pure[i]["model_record"].get("rc_ab").is_some() && pure[j]["model_record"].get("rc_ab").is_some();
+                    if both_assoc && g.bool(0.5) {
+                        b["rc_ab"] = json!(g.range(0.3, 0.5));
+                        b["epsilon_k_ab"] = json!(g.range(1200.0, 3000.0));
+                        any = true;
+                    }
+                    if any {
                         binary.push((i, j, b));
                     }
                 }
